@@ -2,10 +2,10 @@
 from assemble import Item
 
 NAME = 'index'
-PRELUDE = ['base']
+PRELUDE = ['base', 'bigint', 'float', 'rational', 'opaque']
 SPECS = ['index.rs']
-DEPS = []
-NEEDS_EXPANDED = False
+DEPS = ['nint', 'nnum', 'coretypes']
+NEEDS_EXPANDED = True
 
 LEN_INV = ('slice_len_fits_isize', 'xs.len() <= isize::MAX')
 
@@ -32,6 +32,71 @@ ITEMS = [
         ensures=[
             ('bounds_are_python_slice', '(r.0 as int, r.1 as int) == py_slice(xs.len() as int, opt_isize(lo), opt_isize(hi))'),
             ('lo_le_hi_le_len', 'r.0 <= r.1 <= xs.len()'),
+        ],
+        props=['C10'],
+    ),
+    # ---- the same kernels behind an interpreter value as index: non-integers, non-numbers and integers beyond isize raise
+    Item(
+        id='pythonic_index', source='src/core.rs', locator='fn pythonic_index',
+        requires=[LEN_INV],
+        ensures=[
+            ('ok_iff_integer_with_python_index', 'r is Ok <==> (obj_int(*i) is Some && py_index(xs.len() as int, obj_int(*i)->Some_0) is Some)'),
+            ('ok_value_is_python_index', 'r is Ok ==> Some(r->Ok_0 as int) == py_index(xs.len() as int, obj_int(*i)->Some_0)'),
+            ('err_is_index_error', 'r is Err ==> err_class(r->Err_0) == ErrClass::Index'),
+        ],
+        props=['C10'],
+    ),
+    Item(
+        id='obj_to_isize_slice_index', source='src/core.rs', locator='fn obj_to_isize_slice_index',
+        ensures=[
+            ('absent_bound_stays_absent', 'x is None ==> r == Ok::<Option<isize>, NErr>(None)'),
+            ('machine_word_integers_pass_through', '(x is Some && obj_int(*x->Some_0) is Some && isize::MIN <= obj_int(*x->Some_0)->Some_0 <= isize::MAX) ==> r == Ok::<Option<isize>, NErr>(Some(obj_int(*x->Some_0)->Some_0 as isize))'),
+            ('everything_else_is_an_index_error', '(x is Some && !(obj_int(*x->Some_0) is Some && isize::MIN <= obj_int(*x->Some_0)->Some_0 <= isize::MAX)) ==> (r is Err && err_class(r->Err_0) == ErrClass::Index)'),
+        ],
+        props=['C10'],
+    ),
+    Item(
+        id='pythonic_slice_obj', source='src/core.rs', locator='fn pythonic_slice_obj',
+        requires=[LEN_INV],
+        ensures=[
+            ('never_fails_for_machine_word_bounds', '(obj_bound_ok(lo) && obj_bound_ok(hi)) ==> r is Ok'),
+            ('bounds_are_python_slice', 'r is Ok ==> (r->Ok_0.0 as int, r->Ok_0.1 as int) == py_slice(xs.len() as int, obj_bound(lo), obj_bound(hi))'),
+            ('lo_le_hi_le_len', 'r is Ok ==> r->Ok_0.0 <= r->Ok_0.1 <= xs.len()'),
+        ],
+        props=['C10'],
+    ),
+    Item(
+        id='cyclic_index', source='src/lib.rs', locator='fn cyclic_index',
+        requires=[LEN_INV],
+        ensures=[
+            ('wraps_around_modulo_len', '(obj_int(*i) is Some && isize::MIN <= obj_int(*i)->Some_0 <= isize::MAX && xs.len() > 0) ==> (r is Ok && r->Ok_0 as int == obj_int(*i)->Some_0 % (xs.len() as int))'),
+            ('in_bounds', 'r is Ok ==> r->Ok_0 < xs.len()'),
+            ('empty_or_bad_index_is_index_error', 'r is Err ==> err_class(r->Err_0) == ErrClass::Index'),
+        ],
+        props=['C10'],
+    ),
+    Item(
+        id='safe_index_inner', source='src/lib.rs', locator='fn safe_index_inner',
+        ensures=[('some_iff_in_range', 'r == (if obj_int(*i) is Some && 0 <= obj_int(*i)->Some_0 < xs.len() { Some(obj_int(*i)->Some_0 as usize) } else { None })')],
+        props=['C10'],
+    ),
+    Item(
+        id='weird_string_as_bytes_index', source='src/eval.rs', locator='fn weird_string_as_bytes_index',
+        requires=[('index_in_bounds', 'i < s.len()')],
+        props=['C10'],
+    ),
+    Item(id='obj_u8', source='src/core.rs', locator='impl Obj / fn u8',
+         ensures=[('value', 'r == Obj::Num(NNum::Int(NInt::Small(n as i64)))')], props=['C10']),
+    # per-kind element access: list, vector, bytes and string (by UTF-8 byte) all address through pythonic_index_isize
+    Item(
+        id='linear_index_isize', source='src/lib.rs', locator='fn linear_index_isize',
+        requires=[('rust_allocation_limit', 'seq_len_fits_isize(xr)')],
+        ensures=[
+            ('list_element_at_python_index', 'xr matches Seq::List(xx) ==> (match py_index(xx@.len() as int, i as int) { Some(k) => r == Ok::<Obj, NErr>(xx@[k]), None => r is Err && err_class(r->Err_0) == ErrClass::Index })'),
+            ('vector_element_at_python_index', 'xr matches Seq::Vector(x) ==> (match py_index(x@.len() as int, i as int) { Some(k) => r is Ok && r->Ok_0 is Num && r->Ok_0->Num_0@ == x@[k]@, None => r is Err && err_class(r->Err_0) == ErrClass::Index })'),
+            ('bytes_element_at_python_index', 'xr matches Seq::Bytes(x) ==> (match py_index(x@.len() as int, i as int) { Some(k) => r == Ok::<Obj, NErr>(Obj::Num(NNum::Int(NInt::Small(x@[k] as i64)))), None => r is Err && err_class(r->Err_0) == ErrClass::Index })'),
+            ('string_fails_exactly_out_of_range', 'xr matches Seq::String(s) ==> (r is Ok <==> py_index(str_bytes(*s).len() as int, i as int) is Some)'),
+            ('dict_is_not_linear', 'xr is Dict ==> (r is Err && err_class(r->Err_0) == ErrClass::Type)'),
         ],
         props=['C10'],
     ),
